@@ -1,5 +1,6 @@
 import Poly.Proofs.Native
 import Poly.Proofs.NativeWitness
+import Poly.Proofs.NativeOrder
 import Poly.Proofs.NativeCallGraph
 import Poly.Generated.CallGraph
 /-!
@@ -102,6 +103,52 @@ theorem consensus_sign_count_order_independent (signed : Bytes → Bool) (peers 
     signCount signed peers = signCount signed peers' ∧ quorumReached signed peers = quorumReached signed peers' := by
   have := signCount_perm signed peers peers' h
   exact ⟨this, by simp [quorumReached, this]⟩
+
+section MapRanging
+open Poly.Model.Order
+
+/-- `for k, v := range src { dst[k] = v }` (RegisterAsset: asset and lock-proxy maps; RegisterRedeem and SetBtcTxParam:
+the verified signatures): for every visiting order of `src` every key ends with the same value, and the map ends with
+the same number of entries (the `len(bindSignInfo) >= m` test that decides whether the binding is installed). -/
+theorem merge_range_order_independent {κ ν : Type} [DecidableEq κ] (dst src src' : List (κ × ν))
+    (hn : (keys src).Nodup) (h : List.Perm src src') :
+    (∀ x, mget (mergeRange dst src) x = mget (mergeRange dst src') x) ∧
+    (mergeRange dst src).length = (mergeRange dst src').length :=
+  ⟨mergeRange_order_independent dst src src' hn h, mergeRange_size_order_independent dst src src' hn h⟩
+
+/-- Every stored record that holds a Go map (PeerPoolMap, FeeInfo, AssetBind, BindSignInfo, ConsensusSigns, …) is
+written by collecting the entries in iteration order and stable-sorting them by key: with pairwise different keys under
+a total order the written sequence is the same for every iteration order. -/
+theorem record_serialisation_order_independent {α κ : Type} (key : α → κ) (le : κ → κ → Bool)
+    (htot : ∀ a b, le a b || le b a) (htr : ∀ a b c, le a b → le b c → le a c) (hanti : ∀ a b, le a b → le b a → a = b)
+    (visited visited' : List α) (hn : (visited.map key).Nodup) (h : List.Perm visited visited') :
+    collectSorted (fun a b => le (key a) (key b)) visited = collectSorted (fun a b => le (key a) (key b)) visited' :=
+  collectSorted_order_independent key le htot htr hanti visited visited' hn h
+
+/-- `executeCommitDpos` (also run inside `BlackNode`): quitting and black-listed peers leave, the others become
+consensus peers, whatever order the loop visits the pool in — the surviving entries are the same and the pool stored for
+the new view is identical. (The loop emits no per-peer event in the code as written; an event emitted inside it would
+be order dependent, which the `determ` stream watches for.) -/
+theorem commitDpos_order_independent (le : List UInt8 → List UInt8 → Bool)
+    (htot : ∀ a b, le a b || le b a) (htr : ∀ a b c, le a b → le b c → le a c) (hanti : ∀ a b, le a b → le b a → a = b)
+    (visited visited' : List PeerItem) (hn : (visited.map (·.pubkey)).Nodup) (h : List.Perm visited visited') :
+    List.Perm (commitPool visited) (commitPool visited') ∧
+    collectSorted (fun a b => le a.pubkey b.pubkey) (commitPool visited) =
+      collectSorted (fun a b => le a.pubkey b.pubkey) (commitPool visited') :=
+  ⟨commitPool_perm visited visited' h, commitPool_stored_order_independent le htot htr hanti visited visited' hn h⟩
+
+/-- The peer counts that `BlackNode` and `QuitNode` compare with MIN_PEER_NUM. -/
+theorem active_count_order_independent (visited visited' : List PeerItem) (h : List.Perm visited visited') :
+    activeCount visited = activeCount visited' := activeCount_perm visited visited' h
+
+/-- `UpdateFee`: the proposals are collected from the FeeInfo map in iteration order, sorted, and five times their
+median is installed: the same fee for every iteration order (also for the governance model's `medianFee`). -/
+theorem fee_median_order_independent {κ : Type} (visited visited' : List (κ × Nat)) (h : List.Perm visited visited') :
+    medianFee (feeValues visited) = medianFee (feeValues visited') ∧
+    Poly.Model.Gov.medianFee (feeValues visited) = Poly.Model.Gov.medianFee (feeValues visited') :=
+  ⟨medianFee_order_independent _ _ (h.map _), gov_medianFee_order_independent _ _ (h.map _)⟩
+
+end MapRanging
 
 /-- `hsort` is satisfiable: merge sort under a total, transitive, antisymmetric order is such a function. -/
 example (le : Bytes → Bytes → Bool) (htot : ∀ a b, le a b || le b a) (htr : ∀ a b c, le a b → le b c → le a c)
